@@ -115,6 +115,10 @@ pub trait Property: Sync {
     fn exhaustive_note(&self) -> Option<&'static str> {
         None
     }
+    /// property-specific smaller variants of a failing case (tried by the shrinker)
+    fn shrink_candidates(&self, _case: &Case) -> Vec<Case> {
+        vec![]
+    }
     /// extra property-specific post-processing of evidence
     fn extra_evidence(&self, _st: &Stats) -> Value {
         json!({})
@@ -322,6 +326,19 @@ pub fn shrink(prop: &dyn Property, case: &Case, fail: &Fail) -> (Case, Fail, usi
                 }
             }};
         }
+        // 0. property-specific candidates (e.g. selector ASTs)
+        loop {
+            let mut any = false;
+            for cand in prop.shrink_candidates(&cur) {
+                if attempt!(cand) {
+                    any = true;
+                    break;
+                }
+            }
+            if !any || budget == 0 {
+                break;
+            }
+        }
         // 1. schedule: drop all cuts, then each cut
         if !cur.sc.cuts.is_empty() {
             let mut c = cur.clone();
@@ -346,6 +363,9 @@ pub fn shrink(prop: &dyn Property, case: &Case, fail: &Fail) -> (Case, Fail, usi
         while i < cur.sc.handlers.len() {
             let mut c = cur.clone();
             c.sc.handlers.remove(i);
+            if c.sels.len() == cur.sc.handlers.len() {
+                c.sels.remove(i);
+            }
             c.sc.joins.retain(|&j| j != i);
             for j in &mut c.sc.joins {
                 if *j > i {
